@@ -16,6 +16,8 @@ type vBarrierGhost struct {
 	order     [4]int
 	ncalls    int
 	refs      [4]*int
+	fstart    [4]int // logical time at which flush k was called / returned (0 = not yet)
+	fend      [4]int
 }
 
 func (g *vBarrierGhost) flushEntry(k int) {
@@ -44,8 +46,10 @@ func (g *vBarrierGhost) destructor(ref unsafe.Pointer) {
 	if g.destroyed[k] > 1 {
 		vFail("destructor ran twice for one flush")
 	}
-	for j := 1; j < k; j++ {
-		if g.destroyed[j] == 0 {
+	for j := 1; j < 4; j++ {
+		// flush j is earlier than flush k if it had returned before flush k was called (with a single flusher
+		// that is simply j < k; two concurrent flushers may overlap, then neither is earlier)
+		if j != k && g.fend[j] != 0 && g.fend[j] < g.fstart[k] && g.destroyed[j] == 0 {
 			vFail("destructor ran before the destructor of an earlier flush")
 		}
 	}
@@ -96,22 +100,36 @@ func H_C16() {
 			wg.Done()
 		}()
 	}
-	go func() {
-		vThread("flusher")
+	// flushers: 1 = one goroutine performs all flushes in sequence; 2 = two goroutines, flush 1 by the first and
+	// the remaining ones by the second (their FlushSession calls may overlap)
+	nfl := vBound("flushers")
+	if nfl == 2 {
+		wg.Add(1)
+	}
+	flusher := func(name string, from, to int) {
+		vThread(name)
 		var t *BarrierSession
 		if holder {
 			t = ab.Acquire()
 		}
-		for k := 1; k <= nflush; k++ {
+		for k := from; k <= to; k++ {
 			g.flushEntry(k)
+			g.fstart[k] = vClock()
 			ab.FlushSession(unsafe.Pointer(g.refs[k]))
+			g.fend[k] = vClock()
 		}
 		if holder {
 			ab.Release(t)
 		}
-		vThreadDone("flusher")
+		vThreadDone(name)
 		wg.Done()
-	}()
+	}
+	if nfl == 2 {
+		go flusher("flusher", 1, 1)
+		go flusher("flusher2", 2, nflush)
+	} else {
+		go flusher("flusher", 1, nflush)
+	}
 	wg.Wait()
 	vConcurrent(false)
 	// quiescence: every token released, no call in progress
